@@ -45,6 +45,7 @@ type Profile struct {
 	FaultBias    bool // many connection faults
 	DevBias      bool // many device errors
 	CleanPct     int  // percentage of histories kept away from the known value-path defects
+	Burst        bool // often issue all Sets before any controller runs (overlapping transactions)
 }
 
 type sim struct {
@@ -317,6 +318,18 @@ func Generate(r *rng.R, p Profile) fw.Case {
 	}
 	sets := r.Range(1, p.Sets)
 	steps := 0
+	if p.Burst && r.Chance(1, 2) {
+		for g.nTx < sets {
+			g.newSet()
+		}
+		g.tags["burst"] = true
+	}
+	policy := r.Intn(4) // 0,3: mixed random/FIFO/LIFO; 1: youngest transaction first; 2: oldest first
+	if policy == 1 {
+		g.tags["youngest-first"] = true
+	} else if policy == 2 {
+		g.tags["oldest-first"] = true
+	}
 	for steps < p.MaxSteps {
 		steps++
 		switch {
@@ -338,6 +351,28 @@ func Generate(r *rng.R, p Profile) fw.Case {
 				i = 0 // FIFO
 			case 1:
 				i = len(g.queue) - 1 // LIFO
+			}
+			if policy == 1 || policy == 2 {
+				// youngest-first / oldest-first: prefer the work of the latest / earliest transaction
+				best, bestIdx := -1, -1
+				for k, q := range g.queue {
+					f := strings.Split(q, ":")
+					idx := -1
+					if f[0] == "tx" {
+						idx = atoi(f[1])
+					} else if f[0] == "prop" {
+						idx = atoi(f[2])
+					}
+					if idx < 0 {
+						continue
+					}
+					if bestIdx < 0 || (policy == 1 && idx > bestIdx) || (policy == 2 && idx < bestIdx) {
+						best, bestIdx = k, idx
+					}
+				}
+				if best >= 0 && r.Chance(4, 5) {
+					i = best
+				}
 			}
 			id := g.queue[i]
 			g.queue = append(g.queue[:i], g.queue[i+1:]...)
